@@ -200,7 +200,7 @@ func mutateConv(g *rand.Rand, envs []EnvSpec, ids []uint64) []EnvSpec {
 		var kv KVSpec
 		switch g.IntN(10) {
 		case 0:
-			kv = KVSpec{K: "bad-bin", V: "!!!not base64!!!"}
+			kv = KVSpec{K: []string{"bad-bin", "Bad-bin", "bad-Bin", "BAD-BIN"}[g.IntN(4)], V: "!!!not base64!!!"}
 		case 1:
 			kv = KVSpec{K: "", V: "empty key"}
 		case 2:
